@@ -5,6 +5,7 @@ package sched
 
 import (
 	"context"
+	"encoding/json"
 	"fmt"
 	"runtime"
 	"sort"
@@ -317,6 +318,7 @@ type World struct {
 	workerLbl map[string]string         // worker key json -> label
 	last      *scheduler.VerifSnapshot
 	panicked  string
+	quiet     bool // driver calls do not emit section events (read-only listings)
 	pendingISCC []common.Ev
 }
 
@@ -340,6 +342,16 @@ func (w *World) invLabel(k string) string {
 	}
 	if k == string(invocation.BackgroundLearningKeys[0]) {
 		return "BG"
+	}
+	// protojson does not produce stable whitespace: compare by content.
+	var m map[string]any
+	if err := json.Unmarshal([]byte(k), &m); err == nil {
+		if t, _ := m["@type"].(string); strings.HasSuffix(t, "BackgroundLearning") {
+			return "BG"
+		}
+		if v, ok := m["toolInvocationId"].(string); ok {
+			return v
+		}
 	}
 	return "?" + k
 }
@@ -505,6 +517,9 @@ func (w *World) Leave(bq *scheduler.InMemoryBuildQueue) {
 	w.mu.Unlock()
 	name, kind, owner := "driver", "driver", "driver"
 	first := true
+	if a == nil && w.quiet {
+		return
+	}
 	if a != nil {
 		name, kind, owner = a.name, a.kind, a.owner
 		first = a.sections == 0
@@ -554,6 +569,7 @@ func (w *World) project(s *scheduler.VerifSnapshot) common.Ev {
 		workers := []common.Ev{}
 		for _, wk := range q.Workers {
 			workers = append(workers, common.Ev{
+				"idp": pairsOf(wk.Key),
 				"id": w.workerLabel(wk.Key), "task": wk.Task, "terminating": wk.Terminating,
 				"has_last": wk.HasLastInv, "last": w.pathLabels(wk.LastInv), "parked": wk.Parked,
 				"list_index": wk.ListIndex, "cleanup_at": rel(wk.CleanupAt), "stick": relSlice(wk.Stickiness), "drained": wk.Drained,
@@ -600,7 +616,7 @@ func (w *World) project(s *scheduler.VerifSnapshot) common.Ev {
 		}
 		queues = append(queues, common.Ev{
 			"prefix": q.InstanceNamePrefix, "platform": platLabel(q.Platform), "size_class": q.SizeClass,
-			"may_be_removed": q.MayBeRemoved, "cleanup_at": rel(q.CleanupAt), "drains": nz(q.Drains), "workers": workers,
+			"may_be_removed": q.MayBeRemoved, "cleanup_at": rel(q.CleanupAt), "drains": nz(q.Drains), "drain_patterns": patternsOf(q.Drains), "workers": workers,
 			"invs": invs, "sci": q.SizeClassIndex, "classes": nz(q.PlatformSizeClasses), "limits": nz(q.StickinessLimits), "max_bg": q.MaxBackground,
 		})
 	}
@@ -1107,4 +1123,205 @@ func (w *World) Quiescent(parked []*Actor) {
 		names = append(names, a.name)
 	}
 	w.tr.Emit(common.Ev{"ev": "quiescent", "parked": names, "clock": ticks(w.clockNow())})
+}
+
+// --- read-only BuildQueueState API (growth: listings must agree with the
+// state the specification derives from the snapshot) -----------------------
+
+func (w *World) invocationName(q scheduler.VerifQueue, path []string) *buildqueuestate.InvocationName {
+	n := &buildqueuestate.InvocationName{SizeClassQueueName: scqName(q.InstanceNamePrefix, platLabel(q.Platform), uint32(q.SizeClass))}
+	for _, k := range path {
+		n.Ids = append(n.Ids, invocation.Key(k).GetID())
+	}
+	return n
+}
+
+// Listing calls the read-only API for every queue and invocation of the
+// last snapshot (driver calls, not gated) and logs what it returns.
+func (w *World) Listing() {
+	w.mu.Lock()
+	snap := w.last
+	w.mu.Unlock()
+	if snap == nil {
+		return
+	}
+	ctx := context.Background()
+	// One logged driver call first, so that cleanups that are due run in a
+	// recorded section; the listings themselves are not recorded as sections.
+	w.bq.ListPlatformQueues(ctx, &emptypb.Empty{})
+	w.mu.Lock()
+	snap = w.last
+	w.quiet = true
+	w.mu.Unlock()
+	defer func() {
+		w.mu.Lock()
+		w.quiet = false
+		w.mu.Unlock()
+	}()
+	for qi, q := range snap.Queues {
+		for _, inv := range q.Invocations {
+			name := w.invocationName(q, inv.Path)
+			ev := common.Ev{"ev": "listing", "what": "invocation", "queue": qi, "path": w.pathLabels(inv.Path), "ok": true,
+				"ops": []string{}, "children": []string{}, "all": []string{}, "active": []string{},
+				"executing": 0, "idle": 0, "idle_sync": 0, "queued_direct": 0, "queued_indirect": 0, "n_children": 0, "n_queued_children": 0, "n_active_children": 0}
+			r, err := w.bq.ListQueuedOperations(ctx, &buildqueuestate.ListQueuedOperationsRequest{InvocationName: name, PageSize: 1000})
+			if err != nil {
+				ev["ok"] = false
+				w.tr.Emit(ev)
+				continue
+			}
+			ops := []string{}
+			for _, o := range r.QueuedOperations {
+				ops = append(ops, opLabel(o.Name))
+			}
+			ev["ops"] = ops
+			// the same list in pages of one, resumed from each returned entry
+			paged := []string{}
+			var after *buildqueuestate.ListQueuedOperationsRequest_StartAfter
+			for i := 0; i < 100; i++ {
+				pr, err := w.bq.ListQueuedOperations(ctx, &buildqueuestate.ListQueuedOperationsRequest{InvocationName: name, PageSize: 1, StartAfter: after})
+				if err != nil || len(pr.QueuedOperations) == 0 {
+					break
+				}
+				o := pr.QueuedOperations[0]
+				paged = append(paged, opLabel(o.Name))
+				after = &buildqueuestate.ListQueuedOperationsRequest_StartAfter{Priority: o.Priority, ExpectedDuration: o.ExpectedDuration, QueuedTimestamp: o.QueuedTimestamp}
+			}
+			ev["paged"] = paged
+			for _, f := range []struct {
+				key    string
+				filter buildqueuestate.ListInvocationChildrenRequest_Filter
+			}{{"children", buildqueuestate.ListInvocationChildrenRequest_QUEUED}, {"all", buildqueuestate.ListInvocationChildrenRequest_ALL}, {"active", buildqueuestate.ListInvocationChildrenRequest_ACTIVE}} {
+				cr, err := w.bq.ListInvocationChildren(ctx, &buildqueuestate.ListInvocationChildrenRequest{InvocationName: name, Filter: f.filter})
+				if err != nil {
+					ev["ok"] = false
+					continue
+				}
+				keys := []string{}
+				for _, c := range cr.Children {
+					k, _ := invocation.NewKey(c.Id)
+					keys = append(keys, w.invLabel(string(k)))
+				}
+				ev[f.key] = keys
+			}
+			// state of this invocation as reported through its parent (or the queue for the root)
+			var st *buildqueuestate.InvocationState
+			if len(inv.Path) == 0 {
+				pr, err := w.bq.ListPlatformQueues(ctx, &emptypb.Empty{})
+				if err == nil {
+					for _, pq := range pr.PlatformQueues {
+						if pq.Name.InstanceNamePrefix == q.InstanceNamePrefix && platLabel(platform.MustNewKey(q.InstanceNamePrefix, pq.Name.Platform).GetPlatformString()) == platLabel(q.Platform) {
+							for _, s := range pq.SizeClassQueues {
+								if int(s.SizeClass) == q.SizeClass {
+									st = s.RootInvocation
+								}
+							}
+						}
+					}
+				}
+			} else {
+				parent := w.invocationName(q, inv.Path[:len(inv.Path)-1])
+				cr, err := w.bq.ListInvocationChildren(ctx, &buildqueuestate.ListInvocationChildrenRequest{InvocationName: parent, Filter: buildqueuestate.ListInvocationChildrenRequest_ALL})
+				if err == nil {
+					for _, c := range cr.Children {
+						k, _ := invocation.NewKey(c.Id)
+						if string(k) == inv.Path[len(inv.Path)-1] {
+							st = c.State
+						}
+					}
+				}
+			}
+			if st == nil {
+				ev["ok"] = false
+			} else {
+				ev["executing"] = int(st.ExecutingWorkersCount)
+				ev["idle"] = int(st.IdleWorkersCount)
+				ev["idle_sync"] = int(st.IdleSynchronizingWorkersCount)
+				ev["queued_direct"] = int(st.QueuedOperationsCount.GetDirect())
+				ev["queued_indirect"] = int(st.QueuedOperationsCount.GetIndirect())
+				ev["n_children"] = int(st.ChildrenCount)
+				ev["n_queued_children"] = int(st.QueuedChildrenCount)
+				ev["n_active_children"] = int(st.ActiveChildrenCount)
+			}
+			w.tr.Emit(ev)
+		}
+		// workers of the queue
+		wr, err := w.bq.ListWorkers(ctx, &buildqueuestate.ListWorkersRequest{Filter: &buildqueuestate.ListWorkersRequest_Filter{Type: &buildqueuestate.ListWorkersRequest_Filter_All{All: scqName(q.InstanceNamePrefix, platLabel(q.Platform), uint32(q.SizeClass))}}, PageSize: 1000})
+		wev := common.Ev{"ev": "listing", "what": "workers", "queue": qi, "ok": err == nil, "ids": []string{}, "drained": []bool{}, "ops": []string{}, "timeouts": []int64{}}
+		if err == nil {
+			ids, dr, ops, tos := []string{}, []bool{}, []string{}, []int64{}
+			for _, x := range wr.Workers {
+				ids = append(ids, w.workerLabel(workerKeyJSON(x.Id)))
+				dr = append(dr, x.Drained)
+				if x.CurrentOperation != nil {
+					ops = append(ops, opLabel(x.CurrentOperation.Name))
+				} else {
+					ops = append(ops, "")
+				}
+				if x.Timeout != nil {
+					tos = append(tos, ticks(x.Timeout.AsTime()))
+				} else {
+					tos = append(tos, -1)
+				}
+			}
+			wev["ids"], wev["drained"], wev["ops"], wev["timeouts"] = ids, dr, ops, tos
+		}
+		w.tr.Emit(wev)
+	}
+	// all operations, in pages of two
+	names, stages := []string{}, []string{}
+	var after *buildqueuestate.ListOperationsRequest_StartAfter
+	total := -1
+	for i := 0; i < 100; i++ {
+		r, err := w.bq.ListOperations(ctx, &buildqueuestate.ListOperationsRequest{PageSize: 2, StartAfter: after})
+		if err != nil {
+			break
+		}
+		total = int(r.PaginationInfo.TotalEntries)
+		if len(r.Operations) == 0 {
+			break
+		}
+		for _, o := range r.Operations {
+			names = append(names, opLabel(o.Name))
+			switch o.Stage.(type) {
+			case *buildqueuestate.OperationState_Queued:
+				stages = append(stages, "Q")
+			case *buildqueuestate.OperationState_Executing:
+				stages = append(stages, "E")
+			case *buildqueuestate.OperationState_Completed:
+				stages = append(stages, "C")
+			default:
+				stages = append(stages, "?")
+			}
+			after = &buildqueuestate.ListOperationsRequest_StartAfter{OperationName: o.Name}
+		}
+	}
+	w.tr.Emit(common.Ev{"ev": "listing", "what": "operations", "names": names, "stages": stages, "total": total})
+}
+
+// pairsOf turns the JSON form of a map[string]string into a list of
+// key/value pairs.
+func pairsOf(js string) []common.Ev {
+	out := []common.Ev{}
+	var m map[string]string
+	if err := json.Unmarshal([]byte(js), &m); err != nil {
+		return out
+	}
+	var keys []string
+	for k := range m {
+		keys = append(keys, k)
+	}
+	sort.Strings(keys)
+	for _, k := range keys {
+		out = append(out, common.Ev{"k": k, "v": m[k]})
+	}
+	return out
+}
+
+func patternsOf(drains []string) [][]common.Ev {
+	out := [][]common.Ev{}
+	for _, d := range drains {
+		out = append(out, pairsOf(d))
+	}
+	return out
 }
